@@ -492,6 +492,42 @@ func (d *driver) tamperRandom(saved map[string][]byte) {
 			}
 		}
 	}
+	// roll a partial tile back to an older, narrower partial tile of the same tile (a clean prefix)
+	if d.r.Intn(3) == 0 {
+		var widest string
+		for _, c := range keys {
+			if i := strings.Index(c, ".p/"); i > 0 && strings.HasPrefix(c, "tile/") {
+				if widest == "" || len(c) > len(widest) || (len(c) == len(widest) && c > widest) {
+					if strings.HasPrefix(c, "tile/data/") || d.r.Intn(2) == 0 {
+						widest = c
+					}
+				}
+			}
+		}
+		if widest != "" {
+			prefix := widest[:strings.Index(widest, ".p/")+3]
+			var older []string
+			for _, c := range keys {
+				if strings.HasPrefix(c, prefix) && c != widest {
+					older = append(older, c)
+				}
+			}
+			if len(older) > 0 {
+				src := older[d.r.Intn(len(older))]
+				so := w.objects[src]
+				raw := so.data
+				if strings.HasPrefix(src, "tile/data/") || strings.HasPrefix(src, "tile/names/") {
+					raw, _ = gunzip(so.data)
+				}
+				w.objects[widest] = object{bytes.Clone(so.data), so.imm}
+				w.logf(nil, "ev|tamper|%s|bytes|%s", widest, hx(raw))
+				d.stats["tamper"]++
+				d.stats["tamper-rollback-partial"]++
+				w.mon.tampered = true
+				return
+			}
+		}
+	}
 	o := w.objects[k]
 	compressed := strings.HasPrefix(k, "tile/data/") || strings.HasPrefix(k, "tile/names/")
 	raw := o.data
